@@ -11,6 +11,8 @@ CONSTANTS
   Replace = FALSE
   ExtCloseOn = FALSE
   DevLimiter = TRUE
+  DevNilFwd = TRUE
+  DevStaleSrc = TRUE
   Gen = FALSE
   Emit = FALSE
 INIT Init
